@@ -6,10 +6,13 @@ EXTENDS SmtpServer, Json
 
 MCConfigs ==
   { [lmtp |-> l, maxRcpt |-> 0, maxBytes |-> 0, tlsAvail |-> FALSE, implicitTLS |-> FALSE,
-     insecureAuth |-> FALSE, authBackend |-> FALSE, lmtpBackend |-> FALSE,
-     binarymime |-> TRUE, dsn |-> FALSE] : l \in BOOLEAN }
+     insecureAuth |-> a, authBackend |-> a, lmtpBackend |-> FALSE,
+     binarymime |-> TRUE, dsn |-> FALSE] : l \in BOOLEAN, a \in BOOLEAN } \
+  { c \in [lmtp : {TRUE}, maxRcpt : {0}, maxBytes : {0}, tlsAvail : {FALSE}, implicitTLS : {FALSE},
+            insecureAuth : {TRUE}, authBackend : {TRUE}, lmtpBackend : {FALSE}, binarymime : {TRUE}, dsn : {FALSE}] : TRUE }
 
-MCAlphabet == {"greet", "mail", "rcpt", "bdat", "idle", "quit"}
+\* ("auth": the silence may also fall into a SASL exchange)
+MCAlphabet == {"greet", "mail", "rcpt", "bdat", "idle", "quit", "auth"}
 
 DumpEdge ==
   PrintT(<<"EDGE", ToJson([cfg |-> cfg, src |-> st, osrc |-> obs, lbl |-> last', dst |-> st', odst |-> obs'])>>)
